@@ -13,6 +13,9 @@ def run(ctx, rep):
     rep.floor("R1", "recovery alternatives", n, 4)
     n, _ = common_g.emit(ctx, rep, "C14", {"flatten"}, "R2")
     rep.floor("R2", "bodies built by flatten", n, 3)
+    rep.rule("R4", "the token vocabulary is the reference one (A10.i): every vocabulary token inside a malformed member reaches the parser (a recoverable parser error), none becomes an unrecoverable lexer error")
+    import lexical
+    lexical.rules(ctx, rep, "C14", {"classes"})
     auto = [a for a in gram["automata"] if a["start"] == "OptAidl"]
     if not auto:
         raise KeyError("anchor-missing: automaton of OptAidl")
